@@ -69,6 +69,7 @@ def direct_instances(ctx):
                     inst["genos"][0] = col
                     inst["tag"] = "exh1"
                     insts.append(inst)
+    ctx.extra["exhaustive_first_column_genotype_combinations"] = {"trio": 27, "quartet": 81}
     if not ctx.quick:
         role3 = ["F", "M", "C"]
         all3 = combos(3)
@@ -98,7 +99,7 @@ def direct_instances(ctx):
                 inst["tag"] = "exh2q"
                 insts.append(inst)
         ctx.exhaustive = True
-    for _ in range(ctx.n(2000, 30000)):
+    for _ in range(ctx.n(1200, 20000)):
         inst = md.make_instance(rng)
         inst["tag"] = "rnd"
         insts.append(inst)
@@ -349,14 +350,18 @@ def run(ctx):
     ctx.log(f"direct: implementation done ({time.time() - t0:.0f}s)")
     l2_bad = evaluate_direct(ctx, insts, results)
     ctx.log(f"direct: evaluated in Coq ({time.time() - t0:.0f}s)")
+    searched = False
     if l2_bad:
         search_direct(ctx)
-    specs = [md.make_cli_spec(ctx.rng) for _ in range(ctx.n(200, 2500))]
+        searched = True
+    specs = [md.make_cli_spec(ctx.rng) for _ in range(ctx.n(150, 2000))]
     ctx.log(f"cli: {len(specs)} runs")
     runs = cli_runs(ctx, specs)
     ctx.log(f"cli: implementation done ({time.time() - t0:.0f}s)")
     evaluate_cli(ctx, runs)
     ctx.log(f"cli: evaluated in Coq ({time.time() - t0:.0f}s)")
+    if ctx.l2 and not searched:
+        search_direct(ctx)
 
 
 def replay(ctx, data):
